@@ -31,14 +31,29 @@ def run(ck, P):
     ok = has(facts, "(mod->state & %d)" % LIVE)
     # topic set => sub required: path check
     bad = None
-    for path in ti.paths():
-        evs = list(rules.path_events(ti, path))
-        if wr[0] in evs:
-            a = rules.path_assumes(path)
-            if a.get("msg->msg.topic") is True and a.get("sub") is not True:
+    for path in ti.paths(prune=False):
+        feas, _env, a, evs = rules.simulate(ti, path)
+        if feas and wr[0] in evs:
+            direct_taken = a.get("(%s == NULL)" % ti.params[1]["name"]) is True or a.get(ti.params[1]["name"]) is False
+            if a.get("msg->msg.topic") is True and a.get("sub") is not True and not direct_taken:
                 bad = path
     ck.ob("C02.1-ELIGIBLE", ti.site("write only to live+subscribed"), ok and bad is None, "write under %s; publish path requires a subscription: %s"
           % (fmt_facts(frozenset(x for x in facts if "state" in x[0])), bad is None), path=rules.fmt_path(ti, bad) if bad else None)
+    # direct tells (tell_pubsub_msg -> tell_if(m, NULL, recipient)) may carry a topic: the poison pill.  Specialise tell_if to that
+    # call site (key = NULL) and require a feasible path to the pipe write with a topic present.
+    tpm = P.fn("tell_pubsub_msg", PS)
+    direct = [e for e in tpm.calls("tell_if") if strip(e.args[1])["k"] == "null"]
+    ck.need(direct, "direct-tell call site tell_if(m, NULL, recipient) vanished")
+    keyp = ti.params[1]["name"]
+    reach = 0
+    for path in ti.paths(prune=False):
+        feas, _env, a, evs = rules.simulate(ti, path, preset={keyp: 0})
+        if feas and wr[0] in evs and a.get("msg->msg.topic") is True:
+            reach += 1
+    ck.ob("C02.1-ELIGIBLE", ti.site("direct tell with a topic is deliverable"), reach > 0,
+          "%d feasible path(s) deliver a direct tell that carries a topic (the poison pill)" % reach if reach else
+          "with key == NULL (direct tell) and a topic set, no feasible path of tell_if reaches the pipe write: m_mod_ps_poisonpill() is accepted but the pill "
+          "is never delivered, the recipient never stops")
     calls = [e for e in ts.calls("tell_if")]
     okt = bool(calls)
     for e in calls:
